@@ -24,6 +24,7 @@ import (
 	"os"
 	"regexp"
 	"runtime"
+	"runtime/debug"
 	"sort"
 	"strconv"
 	"strings"
@@ -169,6 +170,10 @@ func childMain(tier string) {
 		}
 	}
 	c.plan.hexFile = os.Getenv("VERIF_C03_HEXFILE")
+	// soft limit well below the address-space limit: the collector then runs before accumulated garbage
+	// of many medium-sized evaluations (tens of MiB each) can exhaust the 3 GiB, which would kill the
+	// child on an evaluation that is innocent when run alone
+	debug.SetMemoryLimit(1 << 30)
 	go c.watchdog()
 	rd := bufio.NewReaderSize(os.Stdin, 1<<20)
 	for {
@@ -506,7 +511,7 @@ func (c *childState) executeOne(ci int, es *evalState, skipX map[int]bool, res *
 		res.Calls += int64(len(ts[e].Items))
 		for _, msg := range ts[e].Internal {
 			sig := "exec-internal:" + stripLabel(msg)
-			if tg := causeTags(dec); tg != "" {
+			if tg := causeTags(dec, in.B); tg != "" {
 				sig = "exec-internal:" + tg + ":" + engName[e]
 			}
 			c.addViol(res, sig, fmt.Sprintf("runtime-internal failure while executing an accepted module (%s): %s", featureSets[f].Name, msg), in, f)
@@ -560,7 +565,7 @@ func (c *childState) executeOne(ci int, es *evalState, skipX map[int]bool, res *
 		sig := "engines-disagree:" + kind
 		if where := constExprMutableGlobal(dec); where != "" {
 			sig = "engines-disagree:constexpr-mutable-global:" + where
-		} else if tg := causeTags(dec); tg != "" {
+		} else if tg := causeTags(dec, in.B); tg != "" {
 			sig = "engines-disagree:" + tg
 		} else if kind == "outcome" {
 			sig += ":" + normalize(ts0class(ts[0], ts[1]), 90)
@@ -749,7 +754,7 @@ func main() {
 				// name the root cause when the accepted module contains a known one (a fault inside
 				// generated code has no stable first line)
 				if dec, err := decodeForHarness(in.B, ev.F); err == nil && dec != nil {
-					if tg := causeTags(dec); tg != "" {
+					if tg := causeTags(dec, in.B); tg != "" {
 						v.Sig = "exec-fault:" + tg + ":" + eng
 					}
 				}
